@@ -309,8 +309,8 @@ func init() {
 			}
 			return m.rtypeIface(rv.t)
 		},
-		"(reflect.Value).CanSet":  func(m *Machine, c *frame, a []value) value { return mkBool(m.asReflVal(a[0]).canSet) },
-		"(reflect.Value).CanAddr": func(m *Machine, c *frame, a []value) value { return mkBool(m.asReflVal(a[0]).addr != nil) },
+		"(reflect.Value).CanSet":       func(m *Machine, c *frame, a []value) value { return mkBool(m.asReflVal(a[0]).canSet) },
+		"(reflect.Value).CanAddr":      func(m *Machine, c *frame, a []value) value { return mkBool(m.asReflVal(a[0]).addr != nil) },
 		"(reflect.Value).CanInterface": func(m *Machine, c *frame, a []value) value { return tTrue },
 		"(reflect.Value).Addr": func(m *Machine, c *frame, a []value) value {
 			rv := m.asReflVal(a[0])
